@@ -1,4 +1,5 @@
 import Zeno.Proofs.RateLimiter
+import Zeno.Proofs.RateProg
 import Zeno.Gen.RateLimiter
 import Zeno.Gen.Archiver
 /-!
@@ -71,5 +72,46 @@ example : (run G (TB.new 1 1 0) [(0, .try), (0, .try), (1, .fail 429), (3, .try)
 /-- the one place that uses the limiter, `archive()`, addresses a host's bucket by the same key when it waits, when it reports a
 failure and when it reports a success (so the penalties proved above land on the bucket the next request waits on) -/
 theorem call_sites_ok : Zeno.Gen.Archiver.facts.limiterKeysAgree = true := by decide
+
+/-! ### the code as written now
+
+`Gen.RateProg.facts` holds `refill`, one attempt of `Wait`, `adjustOnFailure`, `onSuccess` and `newTokenBucket` translated statement
+by statement from the source on every run (tools/facts/sec_arith.go); `Model/RateProg.lean` gives the translated statements their
+meaning. The theorems below say that these programs compute exactly the model functions used above — so every statement of this
+file is also a statement about the translated code — and restate the two headline bounds directly over the translated programs. -/
+
+open Zeno.Model.RateProg in
+/-- nothing in the translated methods is opaque to the translator, and each computes the model function: for every bucket, time, status -/
+theorem c13_code_is_model (b : TB) (now : Rat) (st : Nat) (cap rate : Rat) :
+    runRefill P b now = some (refill b now) ∧
+    runWaitAttempt P b now = some (tryAcquire G b now) ∧
+    runOnFailure P b now st = some (onFailure G b now st) ∧
+    runOnSuccess P b now = some (onSuccess G b now) ∧
+    runNew P cap rate now = some (TB.new cap rate now) :=
+  ⟨refill_translated b now, wait_translated b now, failure_translated b now st, success_translated b now, new_translated cap rate now⟩
+
+open Zeno.Model.RateProg in
+/-- every field access of the translated methods happens with the bucket's mutex held; no method sleeps or returns holding it -/
+theorem c13_lock_discipline : lockOK P = true := by decide
+
+open Zeno.Model.RateProg in
+/-- the window bound, over the translated programs: a bucket made by the translated constructor and driven by the translated
+methods releases at most capacity + T × configured-rate requests in any window of length T -/
+theorem c13_window_bound_code (evs : List (Rat × Ev)) (b : TB) (a T : Rat) (h : Inv b) (hl : b.last ≤ a)
+    (hT : 0 ≤ T) (ht : Timed a (a + T) evs) :
+    ∃ b' n, runProg P b evs = some (b', n) ∧ (n : Rat) ≤ b.cap + T * b.ideal :=
+  ⟨_, _, run_translated evs b, c13_window_bound evs b a T h hl hT ht⟩
+
+open Zeno.Model.RateProg in
+/-- the penalty, over the translated programs: after the translated `adjustOnFailure` ran with a 429 / 403 / 408 / 425 at `t0`,
+the translated `Wait` releases nothing before `t0 + min(5·2^(n-1), 30) s` -/
+theorem c13_penalty_honoured_code (b : TB) (t0 : Rat) (st : Nat) (hst : st = 429 ∨ st = 403 ∨ st = 408 ∨ st = 425)
+    (evs : List (Rat × Ev)) (ht : TimedLt t0 (t0 + penalty G (b.fails + 1)) evs) :
+    ∃ b1 b2, runOnFailure P b t0 st = some b1 ∧ runProg P b1 evs = some (b2, 0) := by
+  refine ⟨onFailure G b t0 st, (run G (onFailure G b t0 st) evs).1, failure_translated b t0 st, ?_⟩
+  rw [run_translated]
+  have h := c13_penalty_honoured b t0 st hst evs ht
+  have e : run G (onFailure G b t0 st) evs = ((run G (onFailure G b t0 st) evs).1, (run G (onFailure G b t0 st) evs).2) := rfl
+  rw [e, h]
 
 end Zeno.Props.C13
